@@ -652,11 +652,16 @@ pub fn corrupt(rng: &mut Rng, msg: &[u8]) -> (Vec<u8>, &'static str) {
     match rng.usize(16) {
         15 => {
             // a complete, well-formed multi-byte UTF-8 character (still non-ASCII bytes outside block data)
-            let ch: &[u8] = *rng.pick(&[&b"\xc2\xb5"[..], b"\xc3\xa9", b"\xe2\x82\xac", b"\xf0\x9f\x98\x80", b"\xc2\xb0", b"\xce\xa9"]);
-            // preferably inside a quoted string, where a lenient reader would be tempted to let it through
-            let at = match v.iter().position(|c| *c == b'\'' || *c == b'"') {
-                Some(q) if rng.chance(2, 3) => q + 1,
-                _ => pos,
+            let ch: &[u8] = *rng.pick(&[&b"\xc2\xb5"[..], b"\xc3\xa9", b"\xe2\x82\xac", b"\xf0\x9f\x98\x80", b"\xc2\xb0", b"\xce\xa9", b"\xef\xbb\xbf", b"\xef\xbb\xbf"]);
+            // preferably inside a quoted string, where a lenient reader would be tempted to let it through; a byte order
+            // mark preferably at the very start of the message, where an editor puts it
+            let at = if ch == b"\xef\xbb\xbf" && rng.chance(3, 4) {
+                0
+            } else {
+                match v.iter().position(|c| *c == b'\'' || *c == b'"') {
+                    Some(q) if rng.chance(2, 3) => q + 1,
+                    _ => pos,
+                }
             };
             for (i, b) in ch.iter().enumerate() {
                 v.insert(at + i, *b);
